@@ -626,9 +626,10 @@ class DagGen:
     """Seeded generator of DAG histories over 1-4 branches.  Pure: uses only rng and the
     model.  Each generated spec carries "tags" naming the situations it creates."""
 
-    def __init__(self, rng, mh=None, ts0=1_500_000_000, kinds=("file", "file", "file", "directory", "symlink"), exec_bits=True, ghosts=0.0, nick=None, prefix="", octopus=0.0):
+    def __init__(self, rng, mh=None, ts0=1_500_000_000, kinds=("file", "file", "file", "directory", "symlink"), exec_bits=True, ghosts=0.0, nick=None, prefix="", octopus=0.0, side_merges=0.0):
         self.rng = rng
         self.octopus = octopus  # probability per step of an octopus merge (3-4 parents)
+        self.side_merges = side_merges  # probability per step of merging a short-lived side branch
         self.ntmp = 0
         self.mh = mh or MDag()
         self.ts0 = ts0
@@ -853,6 +854,36 @@ class DagGen:
             self.edit(tree, rid_preview, tags, n=1)
         return self._emit(branch, [p0, other_rid], tree, tags)
 
+    def op_side_merge(self, b):
+        """A short-lived side branch (1-2 commits forked from some revision) merged into
+        `b` and never continued; the merge keeps at least one file version that the side
+        branch introduced.  Such merged-in revisions are what a repository may lack
+        (ghosts) while still carrying the texts they introduced."""
+        rng = self.rng
+        mh = self.mh
+        tip = mh.tips[b]
+        self.ntmp += 1
+        name = f"y{self.ntmp}"
+        self.op_edit(name, base=rng.choice(sorted(mh.ancestry(tip))) if rng.random() < 0.7 else rng.choice(mh.order))
+        if rng.random() < 0.3:
+            self.op_edit(name)
+        g = mh.tips.pop(name)
+        if g in mh.ancestry(tip):
+            return None
+        tags = {"merge", "side_merge"}
+        rid_preview = f"{self.prefix}{b}-{mh.nrev.get(b, 0) + 1}"
+        tree = self.merged_tree(mh.tree(tip), mh.tree(g), rid_preview, tags)
+        side = {r for r in mh.ancestry(g) if r not in mh.ancestry(tip)}
+        own = sorted(f for f, e in mh.tree(g).items() if mh.ver[g][f] in side and list(tree.get(f, [])) != list(e))
+        rng.shuffle(own)
+        for f in own[:2]:
+            trial = {k: list(v) for k, v in tree.items()}
+            trial[f] = list(mh.tree(g)[f])
+            if ft_valid(trial):
+                tree = trial
+                tags.add("merge_take_other")
+        return self._emit(b, [tip, g], tree, tags)
+
     def op_same_change(self, b1, b2):
         """The identical change committed independently on two branches."""
         mh = self.mh
@@ -1000,6 +1031,8 @@ class DagGen:
             b = rng.choice(live)
             others = [o for o in live if o != b and mh.tips[o] not in mh.ancestry(mh.tips[b])]
             if self.octopus and rng.random() < self.octopus and self.op_octopus_auto(b) is not None:
+                continue
+            if self.side_merges and rng.random() < self.side_merges and self.op_side_merge(b) is not None:
                 continue
             r = rng.random()
             if r < merge_p and others:
